@@ -1287,6 +1287,8 @@ class Interp:
                           "summarised loop")
 
     def store_subscript(self, o, k, v):
+        if isinstance(o, A.MaskedSel) and o.mask.ndim == 1 and isinstance(o.arr, SArr) and o.arr.ndim >= 2:
+            o = A.materialize(o)
         if isinstance(o, SArr):
             if self.loop_stack and self._loop_store(o, k, v):
                 return
@@ -1769,6 +1771,8 @@ class Interp:
     def subscript(self, o, k):
         if self.loop_stack and id(o) in self.loop_stack[-1].written:
             raise Unsupported("read of a container written by the same summarised loop (loop-carried dependence)")
+        if isinstance(o, A.MaskedSel) and o.mask.ndim == 1 and isinstance(o.arr, SArr):
+            o = A.materialize(o)
         if isinstance(o, SArr):
             if self.safety and not self.spec:
                 self._index_safety(o, k)
